@@ -65,7 +65,8 @@ def gen_synth(chk, count):
     for c in range(count):
         font = rng.choice(('Padauk.ttf', 'charis_r_gr.ttf', 'Scheherazadegr.ttf', 'general.ttf'))
         r = rng.random()
-        n = rng.randrange(105, 125) if r < 0.03 else rng.choice((1, 2, 3, 3, 4, 5, 6, 8, 12, 20))
+        n = rng.randrange(105, 125) if r < 0.03 else (rng.randrange(104, 140) if r < 0.07 else rng.choice((1, 2, 3, 3, 4, 5, 6, 8, 12, 20)))
+        star = 0.03 <= r < 0.07                  # one parent with more children than the depth cut-off (sibling links count as depth), or a few such parents chained
         order = list(range(n)); rng.shuffle(order)
         rank = {s: k for k, s in enumerate(order)}
         chainy = r < 0.03 or rng.random() < 0.15
@@ -74,6 +75,8 @@ def gen_synth(chk, count):
             par = -1
             if rank[i] > 0 and rng.random() < (0.97 if chainy else 0.55):
                 par = order[rank[i] - 1] if chainy else order[rng.randrange(rank[i])]
+            if star and rank[i] > 0:
+                par = order[0] if r < 0.05 else order[(rank[i] - 1) // 60 * 60 and (rank[i] - 1) // 60 * 60 - 59]
             adv = rng.choice((0, 0, 500, 640, 1000, 1, -200, 37))
             v = [par, rng.choice(small), rng.choice(small), adv, rng.choice((0, 0, 0, 0, 40, -75, 900)), rng.choice(small), rng.choice(small),
                  rng.choice(small), rng.choice(small), rng.choice((0, 0, 0, 15, 300, -40))]
